@@ -14,7 +14,7 @@ ASSUME = [
     "(bit-exact for floats); operands are chosen so that the raw signed operation itself does not overflow",
     "unit algebra of the result rests on C02's theorems; collapse/guard logic on C14's",
 ]
-REPS = ["i8", "u8", "i16", "i32", "u32", "i64", "f32", "f64"]
+REPS = ["i8", "u8", "i16", "u16", "i32", "u32", "i64", "u64", "f32", "f64"]
 CT = {"i8": "int8_t", "u8": "uint8_t", "i16": "int16_t", "u16": "uint16_t", "i32": "int32_t", "u32": "uint32_t",
       "i64": "int64_t", "u64": "uint64_t", "f32": "float", "f64": "double", "f80": "long double"}
 
@@ -203,6 +203,7 @@ def main(tier, seed):
     rng.shuffle(equiv_partners)
     equiv_partners = equiv_partners[:400]
     cases = []
+    rep_grid = []
     while len(cases) < ncases:
         pool = uexpr.twin_free_pool(rng, A, 10)
         u1 = gen_unit(rng, A, pool)
@@ -227,7 +228,11 @@ def main(tier, seed):
         sigs = [A.sig(k) for k in keys]
         if len(set(sigs)) != len(sigs):
             continue
-        r1, r2 = rng.choice(REPS), rng.choice(REPS)
+        # every ordered rep pair of the 10 x 10 grid is used before any repeats (seed-drawn order)
+        if not rep_grid:
+            rep_grid.extend((a, b) for a in REPS for b in REPS)
+            rng.shuffle(rep_grid)
+        r1, r2 = rep_grid.pop()
         cases.append({"u1": u1, "u2": u2, "r1": r1, "r2": r2})
     drv = Driver()
     req = []
